@@ -325,20 +325,22 @@ theorem C15_seek_duration_partial (d : Dur) (h : durOk d = true) :
 /-- **C15 (durations, the decimal rounding step, all durations).** The printed thousandths are the
 round-half-even of 1000 × the binary64 value of `as_secs_f64()`: `|t − 1000·h| ≤ 1/2`.  (The
 remaining step, `|h − exact seconds|`, is the binary64 rounding of `as_secs_f64`; it is below
-2^-18 s for durations under 2^32 s and exceeds 1 ms from 2^44 s on — known finding K4.) -/
+2^-18 s for durations under 2^32 s; from 2^43 s on the binary spacing is 2^-9 s and the total can
+exceed 1 ms — known finding K4.) -/
 theorem C15_seek_duration_rounding (d : Dur) :
     let h := F64L.asSecsF64 d.secs d.nanos
     let t := F64.millisRendered d.secs d.nanos
     2 * (t * h.den) ≤ 2 * (h.num * 1000) + h.den ∧ 2 * (h.num * 1000) ≤ 2 * (t * h.den) + h.den :=
   F64L.rhe_error _ _ (F64L.den_pos _)
 
-/-- the failure beyond 2^44 s is real: `Duration::new(u64::MAX, 0)` is rendered
-`18446744073709551616.000` (one second too much), `Duration::new(2^44 + 1, 1_500_000)` as
-`17592186044417.000` (1.5 ms too little) -/
+/-- the failure from 2^43 s on is real: `Duration::new(u64::MAX, 0)` is rendered
+`18446744073709551616.000` (one second too much), `Duration::new(12564216744490, 928_849_251)`
+(between 2^43 s and 2^44 s) as `12564216744490.930` (1.15 ms too much) -/
 theorem C15_K4_witness :
     (Dur.mk U64MAX 0).render = str "18446744073709551616.000" ∧ durOk ⟨U64MAX, 0⟩ = false ∧
-    (Dur.mk 17592186044417 1500000).render = str "17592186044417.000" ∧
-    durOk ⟨17592186044417, 1500000⟩ = false ∧ Dur.isK4 ⟨17592186044417, 1500000⟩ = true := by
+    (Dur.mk 12564216744490 928849251).render = str "12564216744490.930" ∧
+    durOk ⟨12564216744490, 928849251⟩ = false ∧ Dur.isK4 ⟨12564216744490, 928849251⟩ = true ∧
+    Dur.isK4 ⟨8796093022207, 999999999⟩ = false := by
   decide +kernel
 
 /-! ## enum spellings -/
